@@ -146,6 +146,6 @@ PROPS = {
             "freedom from data races is checked by the Go race detector over a storage workload (thorough tier): testing, not proof",
         ],
         "assumptions": ["the model is compared with the implementation on the serialising backend (Secrets); on the memory backend only the property monitors run, because the memory driver hands out the stored objects themselves (see the known finding)",
-                        "well-formedness of the history at quiescence is proved by exhaustive kernel evaluation for two operations (all 924 interleavings) and for three with two preemptions, from four histories; one-creator-per-revision and losers-touch-nothing are proved for any number of operations and any schedule"],
+                        "well-formedness of the history at quiescence, mutual exclusion of in-flight operations, one-creator-per-revision and losers-touch-nothing are proved for any number of operations, any schedule and any well-formed initial history; the exhaustive kernel evaluation of all 924 interleavings of every pair (and two-preemption schedules of triples) from four histories is kept as an independent check"],
     },
 }
